@@ -1,11 +1,30 @@
 """C13 — documented inverse pairs are exact inverses (docs/C13.md)."""
 import hashlib, json, os, re, sys
 import verif as V
+import jqdefs
 
 PROP = "C13"
 PROPS = "props/C13.v"
 PROPS_B = "props/C13b.v"   # integration with C12: tojson|fromjson, tostring|tonumber (coq/integ/TojsonFromjson.v)
 DEPS = ["c13/Utf8.v", "c13/Codec.v", "c13/Jv.v", "c13/Time.v", "c13/Run.v"]
+
+
+# sha256[:16] of the builtin.jq text of every definition transcribed by hand in coq/c13/Jv.v and Date.v
+JQ_TEXT = {
+    "map/1": "f0de8cc258ea5e2b",
+    "to_entries/0": "3a4f5ec1720075ad",
+    "from_entries/0": "f36c0e00c014df82",
+    "with_entries/1": "3fb0ba69b5bdfce6",
+    "tostream/0": "686592c3334a1dbe",
+    "fromstream/1": "cfee62a0d4082f8c",
+    "paths/0": "fead631d6b41de85",
+    "recurse/0": "c2fa0073ee5aa328",
+    "recurse/1": "4b5cb9dc64e6034d",
+    "todate/0": "0883af450c32524a",
+    "fromdate/0": "07882fa324215695",
+    "todateiso8601/0": "edff8982c0429730",
+    "fromdateiso8601/0": "36d1d1c8790d8ba9",
+}
 
 
 def law_case(v):
@@ -70,6 +89,7 @@ def run(tier, seed, only_cands=None):
     ]
     proved = c.prove(PROPS)
     proved = c.prove(PROPS_B) and proved
+    jqdefs.check(c, V.REPO, JQ_TEXT)
     exe_h, hlog = V.build_harness("c13")
     mism, st, lst = [], {}, {}
     law_viol = []
